@@ -6,7 +6,7 @@ from checks import modelbased
 MANIFEST = {
     "technique": "model-based property testing (Hypothesis): list-structure reference functions on nested Python values vs num / offsets_and_flattened / localindex on generated physical encodings",
     "level_text": "Generated-input exploration: arrays of every node class (records and unions above and below the axis, options, regular and variable lists, 32/U32/64-bit indexes, non-zero offsets, gaps, permuted ListArrays) x every axis (both signs, in and out of range); num, flatten and localindex read back through an independent evaluator must equal direct reference functions on the decoded value, which also pins 'only the addressed level changes'. Held on everything generated outside the recorded known findings.",
-    "level_note": "Trusted: akmodel.ops (num/flatten/localindex), akmodel.decode, the /verif bridge. ak.unflatten, ak.ravel and flatten(axis=None) live in the Python layer and are checked only if tier P is available (see C04/C16 notes).",
+    "level_note": "Trusted: akmodel.ops (num/flatten/localindex), akmodel.decode, the /verif bridge. The Python-level part (ak.flatten at axis 0, 1 and None, ak.ravel, ak.num and ak.local_index at axis 1, unflatten(flatten(x), num(x)) at axis 1; no records or unions) runs on the akshim emulation of awkward._ext.",
 }
 RULE = ("case = (physical description, one of num/flatten/localindex, axis); expected = akmodel.ops on the decoded value (error for an axis beyond the depth); "
         "non-trivial = result non-empty and (axis >= 2 or negative, or an empty/missing list at the axis, or a non-canonical node); distinct by hash of the case")
@@ -19,3 +19,98 @@ def _nontrivial(T, vals, desc, spec):
 
 
 modelbased.install(globals(), "C05", ["num", "flatten", "localindex"], CFG, nontrivial=_nontrivial)
+
+
+# ---- Python-level part: ak.flatten (axis 0, 1, None), ak.ravel, ak.num, ak.local_index and the ak.unflatten round trip on the
+# tier-P emulation (added after the seeded change C05-c - ak.flatten(axis=0) no longer removing missing entries below an
+# IndexedArray - was missed: the tier-L part above reaches the C++ methods only)
+from hypothesis import strategies as st  # noqa: E402
+
+from checks import pcommon as P  # noqa: E402
+from vlib.common import Violation  # noqa: E402
+
+_l5_strategy, _l5_run_case, _l5_case_label, _l5_pre_exclude, _l5_setup = strategy, run_case, case_label, pre_exclude, setup  # noqa: F821
+P5CFG = gen.Cfg(max_depth=3, leaf_dtypes=("int64", "float64"), records=False, unions=False, strings=False, unknown=False, numpy_nd=False,
+                max_len=5, max_list=3)
+
+
+@st.composite
+def _p5_cases(draw):
+    T = draw(gen.types(P5CFG))
+    vals = draw(gen.values(T, P5CFG))
+    return {"part": "P", "fn": draw(st.sampled_from(["flatten0", "flatten0", "flatten1", "flatten_none", "ravel", "num1", "local_index1", "unflatten"])),
+            "desc": draw(gen.encode(T, vals, P5CFG))}
+
+
+def strategy(tier):  # noqa: F811
+    return st.one_of(_l5_strategy(tier), _l5_strategy(tier), _l5_strategy(tier), _l5_strategy(tier), _l5_strategy(tier), _p5_cases())
+
+
+def case_label(case):  # noqa: F811
+    return ("P:" + case["fn"]) if case.get("part") == "P" else _l5_case_label(case)
+
+
+def pre_exclude(case):  # noqa: F811
+    return None if case.get("part") == "P" else _l5_pre_exclude(case)
+
+
+def setup(flavour, tier):  # noqa: F811
+    _l5_setup(flavour, tier)
+    P.ak()
+
+
+def _leaves(v, out):
+    if v is None:
+        return out
+    if isinstance(v, list):
+        for e in v:
+            _leaves(e, out)
+    else:
+        out.append(v)
+    return out
+
+
+def _p5_run(case):
+    A = P.ak()
+    buffers = []
+    a = P.harray(case["desc"], buffers)
+    snaps = P.snapshot(buffers)
+    T, V = M.decode(case["desc"])
+    fn = case["fn"]
+    islist = M.strip_option(T)[0] in ("list", "regular")
+    if fn == "flatten0":
+        expected = [v for v in V if v is not None]
+        kind, res = P.outcome(lambda: A.flatten(a, axis=0))
+    elif fn in ("flatten_none", "ravel"):
+        expected = _leaves(V, [])
+        kind, res = P.outcome((lambda: A.flatten(a, axis=None)) if fn == "flatten_none" else (lambda: A.ravel(a)))
+    else:
+        if not islist:
+            return {"discarded": "axis=1 operations on an array without lists"}
+        if fn == "flatten1":
+            expected = [e for v in V if v is not None for e in v]
+            kind, res = P.outcome(lambda: A.flatten(a, axis=1))
+        elif fn == "num1":
+            expected = [None if v is None else len(v) for v in V]
+            kind, res = P.outcome(lambda: A.num(a, axis=1))
+        elif fn == "local_index1":
+            expected = [None if v is None else list(range(len(v))) for v in V]
+            kind, res = P.outcome(lambda: A.local_index(a, axis=1))
+        else:
+            if any(v is None for v in V):
+                return {"discarded": "unflatten(flatten(x), num(x)) is stated for arrays without missing lists at that level"}
+            expected = V
+            kind, res = P.outcome(lambda: A.unflatten(A.flatten(a, axis=1), A.num(a, axis=1)))
+    P.check_purity(buffers, snaps, fn)
+    if kind != "ok":
+        raise Violation("refused:P:" + fn, "ak.%s raised %s: %s" % (fn, kind, str(res)[:300]), expected=M.jsonable(expected))
+    _, got = P.read(res, fn)
+    if not M.same_value(got, expected):
+        raise Violation("value:P:" + fn, "ak.%s differs from the reference" % fn, expected=M.jsonable(expected), observed=M.jsonable(got))
+    return {"tags": ["P:" + fn], "nontrivial": bool(V) and gen.noncanonical(case["desc"]), "sample_class": "P:" + fn}
+
+
+def run_case(case):  # noqa: F811
+    if case.get("part") == "P":
+        return _p5_run(case)
+    return _l5_run_case(case)
